@@ -445,7 +445,7 @@ def own_eval(t, kmode):
             K = {int(q): 1} if kmode == 'sym' else q
         rk, pk = [x for x, _ in e['reac']], [x for x, _ in e['prod']]
         netted = not (set(rk) & set(pk)) and all(v > 0 for _, v in e['reac'] + e['prod']) and not (e['ireac'] or e['iprod'])
-        positive = all(v > 0 for _, v in e['reac'] + e['prod'])
+        positive = all(v > 0 for _, v in e['reac'] + e['prod'] + e['ireac'] + e['iprod'])
         return vec, K, netted, positive
     if k in ('scale', 'neg'):
         n = -1 if k == 'neg' else int(t['n'])
@@ -497,7 +497,7 @@ def check_result(r, vec, K, netted, positive, kmode, what):
         if got[s] != vec.get(s, 0):
             return '%s: net coefficient of %s is %r, the integer combination of the operands gives %r' % (what, s, got[s], vec.get(s, 0))
     if positive:
-        for nm in ('reac', 'prod'):
+        for nm in ('reac', 'prod', 'inact_reac', 'inact_prod'):
             for s, v in getattr(r, nm).items():
                 if not v > 0:
                     return '%s: listed coefficient of %s in %s is %r (not positive)' % (what, s, nm, v)
@@ -982,6 +982,19 @@ class C11(Property):
                     outs.append(exc_name(ex))
             if outs[0] != outs[-1]:
                 return 'eliminate(<%s of %d equilibria>, %r) gives %r, for a list of the same equilibria %r' % (cont, len(eqs), c['wrt'], outs[-1], outs[0])
+            # any number of equilibria: refusals where due, else non-zero integers with m_0*v_0 + m_i*v_i = 0 for every i
+            vs = [_net(e).get(c['wrt'], 0) for e in eqs]
+            due = 'IndexError' if not eqs else ('ZeroDivisionError' if 0 in vs else None)
+            if due or isinstance(outs[-1], str):
+                if outs[-1] != due:
+                    return 'eliminate on coefficients %r gives %r, %s is due' % (vs, outs[-1], due or 'a list of multipliers')
+                return None
+            ms = outs[-1]
+            if len(ms) != len(vs) or any(x == 0 for x in ms):
+                return 'eliminate returned %r for coefficients %r: not one non-zero integer per equilibrium' % (ms, vs)
+            for i in range(1, len(vs)):
+                if ms[0] * vs[0] + ms[i] * vs[i] != 0:
+                    return 'eliminate returned %r for coefficients %r: %d*%d + %d*%d != 0' % (ms, vs, ms[0], vs[0], ms[i], vs[i])
             if len(eqs) != 2 or any(e['ireac'] or e['iprod'] for e in eqs):
                 return None
             v = [_net(e).get(c['wrt'], 0) for e in eqs]
@@ -1010,6 +1023,34 @@ class C11(Property):
                 return None
             if c['wrt'] in r.keys() or r.net_stoich([c['wrt']])[0] != 0:
                 return 'combination %r of the two equilibria still contains %s' % (m, c['wrt'])
+            return None
+        if op == 'primefactors':
+            import sympy
+            n = c['n']
+            want = [p for p in range(2, n + 1) if n % p == 0 and all(p % d for d in range(2, int(p ** 0.5) + 1))]
+            got = [int(x) for x in sympy.primefactors(-n if c.get('negate') else n)]
+            return None if got == want else 'primefactors(%d) = %r, the primes dividing it are %r' % (n, got, want)
+        if op == 'cancel':
+            if any(v < 0 for e in (c['a'], c['b']) for side in ('reac', 'prod', 'ireac', 'iprod') for _, v in e[side]):
+                return None
+            try:
+                a, b = build_eq(c['a'], km), build_eq(c['b'], km)
+            except ValueError:
+                return None
+            na, nb = _net(c['a']), _net(c['b'])
+            keys = [k for side in ('reac', 'prod', 'ireac', 'iprod') for k, _ in c['b'][side]]
+            try:
+                got = a.cancel(b)
+            except Exception as ex:
+                got = exc_name(ex)
+            if any(nb.get(k, 0) == 0 for k in keys):
+                return None if got == 'ZeroDivisionError' else 'cancel: %r, ZeroDivisionError is due (a species of rxn has net coefficient 0)' % (got,)
+            if not keys:
+                return None if got == float('inf') else 'cancel with an empty rxn gives %r' % (got,)
+            trunc = lambda p, q: abs(p) // abs(q) * (1 if (p >= 0) == (q > 0) else -1)
+            cands = [trunc(-na.get(k, 0), nb[k]) for k in keys]
+            if isinstance(got, str) or got not in cands or abs(got) != min(abs(x) for x in cands):
+                return 'cancel gives %r; candidates intdiv(-v_self, v_rxn) per species are %r (the one of least magnitude is due)' % (got, cands)
             return None
         if op == 'intdiv':
             from chempy._util import intdiv
@@ -1053,6 +1094,9 @@ class C11(Property):
             f, b = obj.as_reactions(kf=_K(c['kf'], 'frac'), kb=_K(c['kb'], 'frac'), units=units)
             if dict(f.reac) != dict(obj.reac) or dict(f.prod) != dict(obj.prod) or dict(b.reac) != dict(obj.prod) or dict(b.prod) != dict(obj.reac):
                 return 'as_reactions: forward/backward stoichiometries are not the two directions of the equilibrium'
+            if (dict(f.inact_reac) != dict(obj.inact_reac) or dict(f.inact_prod) != dict(obj.inact_prod)
+                    or dict(b.inact_reac) != dict(obj.inact_prod) or dict(b.inact_prod) != dict(obj.inact_reac)):
+                return 'as_reactions: inactive parts of the pair are not those of the equilibrium (forward) and swapped (backward)'
             kf, kb = f.param, b.param
             want = K * c0 ** d
             lhs = canon_K(kf)
@@ -1078,15 +1122,17 @@ class C11(Property):
             want = own_eval(t, km)
         except _Pred as p:
             want = p
+        # own_eval follows Python's evaluation order (left operand first, `param ** n` before the constructor, `K * None` before
+        # the constructor), so the FIRST refusal it predicts is the one the real code must produce
         if isinstance(outcome, Exception):
             if isinstance(want, _Pred):
-                return None
-            # another node may be entitled to raise although the first one found here was fine: search all nodes
-            if self._any_pred(t, km, exc_name(outcome)):
+                if exc_name(outcome) != str(want):
+                    return '%s: raised %s (%s) where %s is due' % (what, exc_name(outcome), str(outcome)[:60], want)
                 return None
             return '%s: raised %s: %s although every intermediate result is a proper equilibrium' % (what, exc_name(outcome), str(outcome)[:80])
         if isinstance(want, _Pred):
-            return None            # the code returned something where it was entitled to raise: nothing to compare
+            return '%s: returned %s where %s is due (no net effect left / 0 ** negative / a constant combined with None)' % (
+                what, show_equil(outcome), want)
         vec, K, netted, positive = want
         return check_result(outcome, vec, K, netted, positive, km, what)
 
